@@ -14,6 +14,7 @@
 package conn
 
 import (
+	"encoding/binary"
 	"errors"
 	"fmt"
 	"net"
@@ -45,14 +46,33 @@ func (rb RemoteBitfields) marshalBinary() (map[string][]byte, error) {
 	return rbBytes, nil
 }
 
+// unmarshalBitfield decodes the binary form of a bitset received from a remote
+// peer. The encoding starts with the number of bits, which BitSet.UnmarshalBinary
+// allocates before it reads anything else: reject encodings which claim more
+// bits than they carry.
+func unmarshalBitfield(b []byte) (*bitset.BitSet, error) {
+	const header = 8
+	if len(b) < header {
+		return nil, errors.New("bitfield: missing length header")
+	}
+	if n := binary.BigEndian.Uint64(b); n > uint64(len(b)-header)*8 {
+		return nil, fmt.Errorf("bitfield: claims %d bits but carries %d bytes", n, len(b)-header)
+	}
+	bitfield := bitset.New(0)
+	if err := bitfield.UnmarshalBinary(b); err != nil {
+		return nil, err
+	}
+	return bitfield, nil
+}
+
 func (rb RemoteBitfields) unmarshalBinary(rbBytes map[string][]byte) error {
 	for peerIDStr, bitfieldBytes := range rbBytes {
 		peerID, err := core.NewPeerID(peerIDStr)
 		if err != nil {
 			return fmt.Errorf("peer id: %s", err)
 		}
-		bitfield := bitset.New(0)
-		if err := bitfield.UnmarshalBinary(bitfieldBytes); err != nil {
+		bitfield, err := unmarshalBitfield(bitfieldBytes)
+		if err != nil {
 			return err
 		}
 		rb[peerID] = bitfield
@@ -114,8 +134,8 @@ func handshakeFromP2PMessage(m *p2p.Message) (*handshake, error) {
 	if err != nil {
 		return nil, fmt.Errorf("name: %s", err)
 	}
-	bitfield := bitset.New(0)
-	if err := bitfield.UnmarshalBinary(bitfieldMsg.BitfieldBytes); err != nil {
+	bitfield, err := unmarshalBitfield(bitfieldMsg.BitfieldBytes)
+	if err != nil {
 		return nil, err
 	}
 	remoteBitfields := make(RemoteBitfields)
